@@ -35,7 +35,7 @@ func (e *GRPCErrorExpr) Validate() *eval.ValidationErrors {
 		if p.Error(e.Name) == nil {
 			verr.Add(e, "Error %#v does not match an error defined in the service", e.Name)
 		}
-	case *RootExpr:
+	case *GRPCExpr:
 		if Root.Error(e.Name) == nil {
 			verr.Add(e, "Error %#v does not match an error defined in the API", e.Name)
 		}
